@@ -5999,7 +5999,13 @@ def build_stacked_scopes(
         module_vars = {}
         annotations = getattr(module, "__annotations__", {})
         for key, value in module.__dict__.items():
-            val = type_from_annotations(annotations, key, globals=module.__dict__)
+            try:
+                val = type_from_annotations(annotations, key, globals=module.__dict__)
+            except Exception:
+                # An annotation we cannot evaluate must not abort the whole check
+                # before it starts; the annotated assignment itself is reported
+                # when the statement is visited.
+                val = None
             if val is None:
                 for transformer in options.get_value_for(TransformGlobals):
                     maybe_val = transformer(value)
